@@ -376,6 +376,79 @@ example : substCmake false [(['A'], .str []), (['B'], .str "bee".toList)] 100 "$
 example : substCmake false [(['B'], .str "bee".toList)] 100 "${A}${B}".toList
     = .ok ("bee".toList, [['A']]) := by decide
 
+/-! ### the file layer over bytes: `do_conf_file(src, dst, data, format, encoding)`
+
+`confFileBytes c` decodes the input bytes with the codec `c`, substitutes, and encodes the result with the
+*same* codec.  The codec is a parameter; the hypotheses used are stated explicitly. -/
+
+/-- input that is not valid in the encoding is a read error (a `MesonException`), for every format and data -/
+theorem file_undecodable_is_read_error (c : Codec) (fmt : Format) (d : Data) (fuel : Nat) (src : Bytes)
+    (h : c.decode src = none) : confFileBytes c fmt d fuel src = .error .read := by
+  simp [confFileBytes, h]
+
+/-- **placeholder-free files are copied byte for byte** in any encoding that round-trips
+(`encode (decode b) = b` on valid input), whatever their line endings and non-ASCII content (meson format) -/
+theorem file_bytes_copy_meson (c : Codec) (hrt : ∀ b t, c.decode b = some t → c.encode t = some b)
+    (d : Data) (fuel : Nat) (src : Bytes) (text : List Char) (hd : c.decode src = some text)
+    (h1 : '@' ∉ text) (h2 : '#' ∉ text) :
+    confFileBytes c .meson d fuel src = .ok src := by
+  simp [confFileBytes, hd, copy_identity_meson d fuel text h1 h2, hrt src text hd]
+
+/-- the same for the cmake formats -/
+theorem file_bytes_copy_cmake (c : Codec) (hrt : ∀ b t, c.decode b = some t → c.encode t = some b)
+    (atOnly : Bool) (d : Data) (fuel : Nat) (src : Bytes) (text : List Char) (hd : c.decode src = some text)
+    (h1 : '@' ∉ text) (h2 : '#' ∉ text) (h3 : '$' ∉ text) (hf : ∀ l ∈ splitLines text, l.length < fuel) :
+    confFileBytes c (if atOnly then .cmakeAt else .cmake) d fuel src = .ok src := by
+  simp [confFileBytes, hd, copy_identity_cmake atOnly d fuel text h1 h2 h3 hf, hrt src text hd]
+
+/-- **`file_bytes_preserved`** (meson format, one line, stateless encoding: `encode (a ++ b) = encode a ++
+encode b`): the bytes of the line and the bytes of the result are both the concatenation, segment by
+segment, of the encodings of the segment's source resp. replacement — and on every literal segment the two
+coincide: the bytes outside the placeholders are copied unchanged and in place -/
+theorem file_bytes_preserved (c : Codec) (hc : c.Stateless) (d : Data) (s : List Char) (sb ob : Seg → Bytes)
+    (hsrc : ∀ sg ∈ segments s, c.encode sg.src = some (sb sg))
+    (hout : ∀ sg ∈ segments s, c.encode (render d sg) = some (ob sg)) :
+    c.encode s = some ((segments s).flatMap sb) ∧
+    c.encode (substMeson d s) = some ((segments s).flatMap ob) ∧
+    (∀ ch, Seg.lit ch ∈ segments s → ob (.lit ch) = sb (.lit ch)) := by
+  refine ⟨?_, encode_flatMap c hc _ _ _ hout, ?_⟩
+  · have := encode_flatMap c hc Seg.src sb (segments s) hsrc
+    rwa [segments_partition] at this
+  · intro ch hm
+    have h1 := hsrc _ hm
+    have h2 := hout _ hm
+    simp only [Seg.src, render] at h1 h2
+    rw [h1] at h2
+    exact (Option.some.inj h2).symm
+
+/-- the same for the cmake formats (outside the nested-name carve-out) -/
+theorem file_bytes_preserved_cmake (c : Codec) (hc : c.Stateless) (atOnly : Bool) (d : Data) (fuel : Nat)
+    (line : List Char) (segs : List CSeg) (hf : line.length < fuel) (h : cmakeSegs atOnly fuel line = .ok segs)
+    (sb ob : CSeg → Bytes)
+    (hsrc : ∀ sg ∈ segs, c.encode sg.src = some (sb sg))
+    (hout : ∀ sg ∈ segs, c.encode (sg.text d) = some (ob sg)) :
+    c.encode line = some (segs.flatMap sb) ∧
+    (∃ miss, substCmake atOnly d fuel line = .ok (segs.flatMap (CSeg.text d), miss) ∧
+      c.encode (segs.flatMap (CSeg.text d)) = some (segs.flatMap ob)) ∧
+    (∀ ch, CSeg.lit ch ∈ segs → ob (.lit ch) = sb (.lit ch)) := by
+  refine ⟨?_, ⟨_, cmake_one_pass atOnly d fuel line segs hf h, encode_flatMap c hc _ _ _ hout⟩, ?_⟩
+  · have := encode_flatMap c hc CSeg.src sb segs hsrc
+    rwa [cmake_segments_partition atOnly fuel line segs h] at this
+  · intro ch hm
+    have h1 := hsrc _ hm
+    have h2 := hout _ hm
+    simp only [CSeg.src, CSeg.text] at h1 h2
+    rw [h1] at h2
+    exact (Option.some.inj h2).symm
+
+/-- iso-8859-1 meets the hypotheses -/
+theorem latin1_is_stateless : latin1.Stateless := latin1_stateless
+
+example : confFileBytes latin1 .meson [(['A'], .str [Char.ofNat 0xfc])] 0 [0x78, 0xe9, 0x40, 0x41, 0x40, 0x0d, 0x0a]
+    = .ok [0x78, 0xe9, 0xfc, 0x0d, 0x0a] := by decide
+example : confFileBytes latin1 .meson [(['A'], .str [Char.ofNat 0x20ac])] 0 [0x40, 0x41, 0x40] = .error .write := by
+  decide
+
 /-! ### `#mesondefine` string values are scanned once more -/
 
 /-- full statement: the value written by `#mesondefine` is not scanned again -/
